@@ -37,6 +37,8 @@ pub struct Ctx {
     pub stable_row_ids: bool,
     pub v2_paths: bool,
     pub storage_version: LanceFileVersion,
+    /// WriteParams::max_rows_per_group (only the legacy file format cuts row groups by it)
+    pub rows_per_group: usize,
 }
 
 impl Ctx {
@@ -50,6 +52,7 @@ impl Ctx {
             stable_row_ids: false,
             v2_paths: true,
             storage_version: LanceFileVersion::V2_0,
+            rows_per_group: 1024,
         }
     }
     pub fn for_party(&self, party: Arc<Party>) -> Self {
@@ -62,6 +65,7 @@ impl Ctx {
             stable_row_ids: self.stable_row_ids,
             v2_paths: self.v2_paths,
             storage_version: self.storage_version,
+            rows_per_group: self.rows_per_group,
         }
     }
     pub fn world(&self) -> &Arc<World> {
@@ -89,7 +93,7 @@ impl Ctx {
         WriteParams {
             mode,
             max_rows_per_file: max_rows_per_file.max(1),
-            max_rows_per_group: 1024,
+            max_rows_per_group: self.rows_per_group.max(1),
             commit_handler: Some(self.handler.clone()),
             session: Some(self.party.session.clone()),
             enable_stable_row_ids: self.stable_row_ids,
